@@ -46,15 +46,19 @@ def init_segment(mode):
     def load_fragment(eng, e, a, kw):
         if a[1] != 0:
             raise Unsupported('init segment is fragment 0')
-        moov = Obj('MoovBox', {'children': PyList(['mvhd', 'mvex', 'trak'])})
+        # ISO/IEC 14496-12: mehd lives in moov/mvex (never directly in moov)
+        moov = Obj('MoovBox', {'children': PyList(['mvhd', 'mvex', 'trak']), 'mvex': Obj('MvexBox', {})})
         atom = Obj('Wrapper', {'moov': moov})
         eng.ghost_env['__atom__'] = atom
         return atom
 
-    def del_mehd(eng, moov):
+    def del_mehd(eng, mvex):
         if not eng.branch(eng.world['has_mehd']):
             raise PyRaise('AttributeError')
-        moov.f['mehd_removed'] = True
+        eng.ghost_env['__atom__'].f['moov'].f['mehd_removed'] = True
+
+    def del_moov_mehd(eng, moov):
+        raise PyRaise('AttributeError')          # moov has no mehd child
 
     def drm_context(eng, a, kw):
         w = eng.world
@@ -94,7 +98,7 @@ def init_segment(mode):
         key=f'{MRQ}:MediaRequestBase.generate_init_segment', variant=mode, props=['C10', 'C16'], env=env,
         models={'self.check_for_synthetic_http_error': lambda eng, e, a, kw: None, 'self.load_fragment': load_fragment,
                 'models.Key.get_kids': lambda eng, e, a, kw: Opaque('keys'),
-                'atom.moov.append_child': append_child, 'delattr:MoovBox.mehd': del_mehd, 'atom.encode': encode,
+                'atom.moov.append_child': append_child, 'delattr:MvexBox.mehd': del_mehd, 'delattr:MoovBox.mehd': del_moov_mehd, 'atom.encode': encode,
                 'content_type_to_mime_type': lambda eng, e, a, kw: Opaque('mime'),
                 'add_allowed_origins': lambda eng, e, a, kw: None, 'flask.make_response': make_response},
         ctors={'DrmContext': drm_context},
